@@ -241,8 +241,14 @@ func (g *G) arg(s setter) string {
 		return strconv.FormatUint(g.u32(), 10)
 	case "bool":
 		return g.boolS()
-	case "str", "bin":
+	case "str":
 		return hexs(g.bytes())
+	case "bin":
+		b := g.bytes()
+		if len(b) == 0 && g.chance(50) {
+			return "" // empty but non-nil slice (hexs would give "-" = nil)
+		}
+		return hexs(b)
 	case "qos":
 		if g.domain {
 			return strconv.Itoa(g.pick(3))
